@@ -12,5 +12,6 @@ func TestWorld(t *testing.T) {
 		"C35": runC35,
 		"C29": runC29,
 		"C34": runC34,
+		"C33": runC33,
 	})
 }
